@@ -1,10 +1,14 @@
 #!/bin/sh
 # developer tool: run a check against a scratch worktree of /repo with a patch applied.
 # usage: try_patch.sh <patch.diff> <Cnn> [extra vcheck args]   (the registered checks always read /repo)
+# The run works on a private COPY of the Coq tree (VERIF_COQ): the Gen/*.v regenerated from the patched source and the
+# rebuilt ties never land in /verif/coq, so concurrent checks of the unchanged tree are not disturbed.
 set -e
 PATCH=$(readlink -f "$1"); PROP=$2; shift 2
-W=/tmp/vw-$$
+V=$(cd "$(dirname "$0")/.." && pwd)
+W=/tmp/vw-$$; C=/tmp/vwcoq-$$
 git -C /repo worktree add -q --detach "$W" HEAD
-trap 'git -C /repo worktree remove --force "$W"' EXIT
+trap 'git -C /repo worktree remove --force "$W"; rm -rf "$C"' EXIT
 git -C "$W" apply "$PATCH"
-VERIF_REPO="$W" /venv/bin/python /verif/harness/vcheck.py "$PROP" "$@" || echo "exit=$?"
+cp -a "$V/coq" "$C"; rm -f "$C/.build.lock"
+VERIF_REPO="$W" VERIF_COQ="$C" /venv/bin/python "$V/harness/vcheck.py" "$PROP" "$@" || echo "exit=$?"
